@@ -176,11 +176,18 @@ func dateFromGoDay(day Time.Weekday) int {
 
 // newDateTime returns the epoch of date contained in argumentList for location.
 func newDateTime(argumentList []Value, location *Time.Location) float64 {
+	// Every supplied argument is converted, in order, before anything else (15.9.3.1, 15.9.4.3).
+	var valueList []float64
+	if len(argumentList) > 1 {
+		for index := 0; index < len(argumentList) && index < 7; index++ {
+			valueList = append(valueList, argumentList[index].float64())
+		}
+	}
 	pick := func(index int, default_ float64) (float64, bool) {
-		if index >= len(argumentList) {
+		if index >= len(valueList) {
 			return default_, false
 		}
-		value := argumentList[index].float64()
+		value := valueList[index]
 		if math.IsNaN(value) || math.IsInf(value, 0) {
 			return 0, true
 		}
